@@ -104,6 +104,7 @@ class Model:
         self._run_cache = {}
         self._interp_cache = {}
         self._planner = None
+        self._conv = None
 
     # ------------------------------------------------------------ classes
     def concrete_classes(self):
@@ -292,6 +293,12 @@ class Model:
                 out["mixed_step_memoization"] = self._planner
                 if "mixed_steps_tabulation" in names:
                     out["schedule[]"] = self._planner
+        if "_convert_action" in names:
+            if self._conv is None:
+                from .summary import convert_cases
+                self._conv = convert_cases(self.repo) or False
+            if self._conv:
+                out["_convert_action"] = self._conv
         return out
 
     def runs(self, cname):
